@@ -171,12 +171,13 @@ end
 
 /-- the types that fit into ONE cell (two-level limit of the cell syntax): basic values, lists
 of basic values, lists of lists of basic values, untyped lists, records of basic fields
-(key/value pairs; no header→field remap) -/
+(key/value pairs keyed by FIELD name, so `header_name_to_field_name` must leave the field
+names alone) -/
 def packTy : Ty → Bool
   | .str | .int | .float | .bool | .anyList => true
   | .list (.list u) => isBasicTy u
   | .list t => isBasicTy t
-  | .model fs h2f _ => h2f.isEmpty && fs.all (fun f => isBasicTy f.2.1)
+  | .model fs h2f _ => fs.all (fun f => isBasicTy f.2.1 && decide (remap h2f f.1 = f.1))
 
 mutual
 /-- `LayoutOk`, along the walk of `unparse_row_recurse` over the VALUE (so with the real
